@@ -16,7 +16,8 @@ if __name__ == '__main__':
     db = ContractDB().load_dir('/verif/contracts')
     names = sys.argv[1:] or sorted(db.contracts)
     for q in names:
-        for c, case in [(c, case) for c in db.contracts[q] for case in db.cases_of(c)]:
+        flt = os.environ.get('VK_CASE')
+        for c, case in [(c, case) for c in db.contracts[q] for case in db.cases_of(c) if not flt or all(x in str(sorted(case.items())) for x in flt.split(';'))]:
             t = time.time()
             fr = verify_function(prog, db, q, c, case=case)
             if fr.degraded:
